@@ -218,6 +218,31 @@ fn hulls(rng: &mut Rng) {
     let mut v = Verdict::new();
     let dir = point_order_direction(&rotated);
     v.require(matches!(dir, AngleDir::Ccw) == ccw, "order_direction.matches_signed_area", || format!("ccw={ccw} start={start}"));
+    // ... for any simple loop, not only convex ones: triangles, and star-shaped loops with deep dents
+    // (few of their points are hull vertices, down to three), in both directions and from every start
+    {
+        let k2 = rng.int(3, 14) as usize;
+        let ccw2 = rng.chance(0.5);
+        let tri = rng.chance(0.4);
+        let c0 = (rng.range(-5.0, 5.0), rng.range(-5.0, 5.0));
+        let phase = rng.range(0.0, 6.283);
+        let sign = if ccw2 { 1.0 } else { -1.0 };
+        let lp: Vec<Point2> = (0..k2)
+            .map(|j| {
+                let a = phase + sign * 6.283185307179586 * (j as f64 + rng.range(-0.25, 0.25)) / k2 as f64;
+                // "dented triangle": only three far corners, everything else well inside their triangle
+                let r = if tri { if j % ((k2 + 2) / 3) == 0 && j / ((k2 + 2) / 3) < 3 { 3.0 } else { rng.range(0.3, 0.7) } } else { rng.range(0.6, 3.0) };
+                Point2::new(c0.0 + r * a.cos(), c0.1 + r * a.sin())
+            })
+            .collect();
+        let area: f64 = (0..k2).map(|j| { let (p, q) = (lp[j], lp[(j + 1) % k2]); p.x * q.y - q.x * p.y }).sum::<f64>() / 2.0;
+        for st in 0..k2 {
+            let rot: Vec<Point2> = (0..k2).map(|j| lp[(j + st) % k2]).collect();
+            let d2 = point_order_direction(&rot);
+            v.require(matches!(d2, AngleDir::Ccw) == (area > 0.0), "order_direction.matches_signed_area_of_any_simple_loop",
+                || format!("{k2} points, signed area {area:.3}, start {st}, hull of {} points: reported {:?}", convex_hull_2d(&rot).len(), d2));
+        }
+    }
     // ball pivot around a convex polygon: every ball touches both consecutive hull points and holds no point strictly inside
     let radius = 6.0;
     if let Ok(Ok((idx, centers))) = guarded(|| ball_pivot_with_centers_2d(&rotated, BallPivotStart::StartOnConvex, BallPivotEnd::EndOnRepeat, AngleDir::Ccw, radius)) {
